@@ -5,7 +5,7 @@ LEVEL = "proof"
 TAGS = ("C06",)
 CONTRACT_MODULES = ALL_CONTRACTS
 FUNCTIONS = [S + "_processExtendedGcodeEntry", S + "processExtendedGcode", S + "_processPendingCommands", S + "exitExcludedRegion",
-             S + "enterExcludedRegion", S + "disableExclusion", P + "handleScriptHook", S + "resetState", H + "handleGcode", "GcodeParser.GcodeParser.buildCommand", "__init__.ExcludeRegionPlugin._handleSettingsUpdated"]
+             S + "enterExcludedRegion", S + "disableExclusion", P + "handleScriptHook", S + "resetState", H + "handleGcode", "GcodeParser.GcodeParser.buildCommand", "__init__.ExcludeRegionPlugin._handleSettingsUpdated"] + [P + "on_event"]
 ASSUMPTIONS = ["A1", "A2", "A3", "A4", "INDUCTION"]
 BOUNDED = [script("split_script.py"), script("merge_roundtrip.py")]
 EXTRA_ASSUMPTIONS = ["collections.OrderedDict is modelled as an insertion-ordered map with pairwise distinct keys (abstract array view of arbitrary symbolic size)",
